@@ -74,10 +74,10 @@ def expected_value(name, spec, provider):
     if k == "zoned":
         naive = datetime(*spec["v"])
         if name.upper() in UTC_FORCED:
-            loc = tzp.localize(naive, spec["tz"])
+            loc = V.dec(spec, provider)
             u = loc.astimezone(UTC)
             return ("dt", u.replace(tzinfo=None), timedelta(0), "UTC")
-        loc = tzp.localize(naive, spec["tz"])      # the offset the provider assigns to that wall time
+        loc = V.dec(dict(spec, fold=0), provider)      # the offset of that wall time (RFC 5545 3.3.5 reading), from the tz library itself
         return ("dt", naive, loc.utcoffset(), spec["tz"])
     if k == "period":
         s = expected_value(name, spec["start"], provider)
@@ -170,7 +170,7 @@ def apply_setters(comps, setters, provider):
         pname = {"LAST_MODIFIED": "LAST-MODIFIED", "start": "DTSTART", "end": "DTEND" if c.name == "VEVENT" else "DUE"}.get(attr, attr)
         if pname in ("DTSTAMP", "LAST-MODIFIED", "ACKNOWLEDGED") and spec["k"] == "zoned":
             naive = datetime(*spec["v"])
-            u = tzp.localize(naive, spec["tz"]).astimezone(UTC)
+            u = V.dec(spec, provider).astimezone(UTC)
             spec = {"k": "utc", "v": [u.year, u.month, u.day, u.hour, u.minute, u.second]}
         elif pname in ("DTSTAMP", "LAST-MODIFIED", "ACKNOWLEDGED") and spec["k"] == "naive":
             spec = {"k": "utc", "v": spec["v"]}
